@@ -242,9 +242,18 @@ def rule_effects(ctx):
                                 "site that edits, creates, deletes or moves a non-newline chunk after tokenization is reachable")
 
 
+def rule_fusion_table(ctx):
+    from .common_fusion import fusion_table
+    r = ctx.rule("fusion-table", "for every language and every pair of punctuators (both shorter than 4 characters) whose concatenation "
+                 "lexes - by longest match over the language's punctuators plus the comment openers - to a longer first token, a "
+                 "SetFlagBits(PCF_FORCE_SPACE) is reachable in space_text() (three-valued folding of the guard over the extracted table)")
+    fusion_table(ctx, r)
+    r.floor(1)
+
+
 def rule_newline_crossing(ctx):
     from .common_effects import newline_crossing_rule
     newline_crossing_rule(ctx)
 
 
-RULES = [rule_lossless_tokenizer, rule_output_once, rule_fusion_guard, rule_no_overlap, rule_nl_in_preproc, rule_effects, rule_newline_crossing]
+RULES = [rule_lossless_tokenizer, rule_output_once, rule_fusion_guard, rule_fusion_table, rule_no_overlap, rule_nl_in_preproc, rule_effects, rule_newline_crossing]
